@@ -799,6 +799,32 @@ def run(tier, replay=None):
         broken.append(('oracle', 'the Coq decider accepted damaged SQL: %s' % sens['missed'][:2]))
   mark('sensitivity')
 
+  # --- 6. order of the UNNEST items: Core/Unnest.v vs RuleStructure.SortUnnestings
+  unnest = None
+  if model_ok:
+    from props import unnesttie
+    ur = common.rng('c09-unnest')
+    utexts = ['@Engine("sqlite");\n' + c09_gen.dependent_unnest_family(ur)['text'] for _ in range(20 if tier == 'quick' else 400)]
+    unnest = unnesttie.run_tie(ur, 400 if tier == 'quick' else 20000, utexts)
+    if unnest['error']:
+      broken.append(('tie', 'Core/Unnest.v could not be evaluated: %s' % unnest['error'][-400:]))
+    for m in unnest['mismatches'][:2]:
+      # is the order the real function returned itself ill scoped (an item before the item it mentions)?
+      names = [u[0] for u in m['unnestings']]
+      ment = {u[0]: [v for v in u[1] if v in names] for u in m['unnestings']}
+      order = m['real_order']
+      ill = order is not None and any(any(v not in order[:i] for v in ment[x]) for i, x in enumerate(order))
+      lost = order is not None and sorted(order) != sorted(names)
+      if ill or lost:
+        key = 'unnest-order:%s' % ('ill-scoped' if ill else 'items-lost')
+        found.append(key)
+        rep.violation(key, dict(m, key=key, law='every UNNEST item of a FROM list comes after the items whose variables its '
+                                                  'list mentions, and no item is lost',
+                                how='props.unnesttie.real_sort / RuleStructure.SortUnnestings on these unnestings'))
+      else:
+        broken.append(('tie', 'SortUnnestings and Core/Unnest.v disagree (order or rejection) on %s' % str(m)[:400]))
+  mark('unnest')
+
   if broken and not [k for k in found if not rep.known.lookup(PID, k)]:
     what, detail = broken[0]
     rep.violation(what, {'broken': detail, 'all_broken': [d[:300] for _, d in broken], 'failing_files': info.get('failing')},
@@ -808,6 +834,7 @@ def run(tier, replay=None):
   rep.coverage.update({
       'evaluations': len(progs) * len(ENGINES) + n_tie + sens['cases'],
       'distinct_nontrivial': len(set(cases)),
+      'unnest_order_tie': {k: v for k, v in (unnest or {}).items() if k != 'mismatches'},
       'rule': 'programs x 8 engines compiled by the real compiler (+ instantiation cases + damaged texts); non-trivial = distinct '
               'emitted SQL statements judged by the Coq decider judge_text (extracted; sample re-evaluated by vm_compute)',
       'exhaustive': False,
